@@ -492,6 +492,24 @@ impl<'a> Run<'a> {
                     self.poisoned = true;
                 }
             }
+            if let Some((nr, a0)) = thread_sleeping_in_syscall(self.tid) {
+                let on = (1..3).find(|&k| a0 as i32 == self.fds[k]);
+                if (nr == libc::SYS_read || nr == libc::SYS_readv) && on.is_some() && start.elapsed() > Duration::from_millis(100) && !self.poisoned {
+                    // the runtime thread sleeps inside read(2) on an empty blocking pipe of the child
+                    // (seeded change C20-c m2: an eager read before the readiness wait)
+                    self.counters.push("runtime_thread_blocked_in_read");
+                    self.vio(
+                        "stdio-read-blocks-runtime-thread",
+                        format!(
+                            "during {what} the runtime thread went to sleep inside read(2) on the child's {} pipe, which is empty: nothing else on this runtime (the stdin write, the other stream, wait, timers) can make progress until the child writes or exits",
+                            if on == Some(1) { "stdout" } else { "stderr" }
+                        ),
+                    );
+                    self.kid.kill_and_reap();
+                    self.dead = true;
+                    self.poisoned = true;
+                }
+            }
             if start.elapsed() > Duration::from_secs(60) {
                 return Err(Abort::Mach(format!("{what}: subject thread did not answer within 60 s")));
             }
